@@ -355,6 +355,8 @@ VAL = "d42/validation/_validator.py"
 SUB = "d42/substitution/_substitutor.py"
 CT = "d42/custom_type/_custom_type.py"
 MUTANTS = [
+    {"name": "custom validate hook gets `path or make_path()` again (fix 51c1bdc reverted)", "rule": "DISPATCH-CHAIN",
+     "edits": [("d42/custom_type/_custom_type.py", "            root = visitor.make_path() if path is Nil else path\n", "            root = path or visitor.make_path()\n")]},
     {"name": "Substitutor.visit re-validates what a custom hook returned (seeded C16-J)", "rule": "TRANSPARENT",
      "edits": [("d42/substitution/_substitutor.py", "            return cast(GenericSchema, substitute_method(self, value=value, **kwargs))", "            substituted = substitute_method(self, value=value, **kwargs)\n            result = substituted.__accept__(Validator(), value=value)\n            if result.has_errors():\n                raise make_substitution_error(result, self._formatter)\n            return cast(GenericSchema, substituted)")]},
     {"name": "neutral: hook result bound to a local before it is returned", "expect": "SILENT",
@@ -362,7 +364,7 @@ MUTANTS = [
     {"name": "Representor.visit drops indent", "rule": "DISPATCH-CHAIN",
      "edits": [(REP, "            return cast(str, represent_method(self, indent=indent, **kwargs))", "            return cast(str, represent_method(self, **kwargs))")]},
     {"name": "__d42_validate__ always makes a new path", "rule": "DISPATCH-CHAIN",
-     "edits": [(CT, "path=path or visitor.make_path()", "path=visitor.make_path()")]},
+     "edits": [(CT, "            root = visitor.make_path() if path is Nil else path\n", "            root = visitor.make_path()\n")]},
     {"name": "typed list fast-paths IntSchema members", "rule": "ONLY-ACCEPT",
      "edits": [(VAL, "            for index, elem in enumerate(value):\n                nested_path = deepcopy(path)[index]\n                res = type_schema.__accept__(self, value=elem, path=nested_path, **kwargs)",
                 "            for index, elem in enumerate(value):\n                nested_path = deepcopy(path)[index]\n                if isinstance(type_schema, IntSchema):\n                    res = self.visit_int(type_schema, value=elem, path=nested_path)\n                else:\n                    res = type_schema.__accept__(self, value=elem, path=nested_path, **kwargs)")]},
